@@ -231,7 +231,11 @@ pub fn run_instance(compiled: &CompiledSim, bytes: &[u8], body: impl AsyncFnOnce
     let r = catch_unwind(AssertUnwindSafe(|| {
         compiled.fuzz_repro(bytes.to_vec(), async |inst| {
             let mut w = LogSink(logref);
-            inst.run_with_scheduler_and_logger(&mut w, body()).await;
+            // the scheduler re-polls the test body between every two of its steps, so counting
+            // polls of the body bounds the number of scheduler steps: a simulation that keeps
+            // scheduling work without ever finishing is cut off deterministically
+            let capped = StepCap { fut: Box::pin(body()), polls: 0 };
+            inst.run_with_scheduler_and_logger(&mut w, capped).await;
         });
     }));
     IN_INSTANCE.with(|q| q.set(false));
@@ -248,6 +252,29 @@ pub fn run_instance(compiled: &CompiledSim, bytes: &[u8], body: impl AsyncFnOnce
         }
     };
     (verdict, log)
+}
+
+/// Scheduler steps after which an instance is declared live-locked.
+#[cfg(stageleft_runtime)]
+pub const STEP_CAP: u64 = 400_000;
+#[cfg(stageleft_runtime)]
+pub const STEP_CAP_MSG: &str = "E5 step cap exceeded";
+
+#[cfg(stageleft_runtime)]
+struct StepCap<'a> {
+    fut: std::pin::Pin<Box<dyn Future<Output = ()> + 'a>>,
+    polls: u64,
+}
+#[cfg(stageleft_runtime)]
+impl Future for StepCap<'_> {
+    type Output = ();
+    fn poll(mut self: std::pin::Pin<&mut Self>, cx: &mut std::task::Context<'_>) -> std::task::Poll<()> {
+        self.polls += 1;
+        if self.polls > STEP_CAP {
+            panic!("{STEP_CAP_MSG}: the simulation scheduled {STEP_CAP} steps without finishing the test body");
+        }
+        self.fut.as_mut().poll(cx)
+    }
 }
 
 #[cfg(stageleft_runtime)]
